@@ -267,4 +267,17 @@ def extra_cases(tier, seed):
             for E in ({"t": "product", "a": A, "b": T}, A):
                 out.append({"dom": {"E": E, "kind": "product" if E is not A else "interior", "pvars": ["p"], "lattice": False, "far": False},
                             "prows": {"p": rows}, "rng": seed * 10 + j})
+    # every parameter-dependent primitive growing with p, several rows in one call with the largest shape NOT in the
+    # first row (and in the first row): the box of a batch must enclose the shapes of all its rows
+    aff = lambda v0, V1: {"k": "affine", "var": "p", "v0": v0, "V1": [[v] for v in V1]}      # noqa: E731
+    prims = [{"t": "interval", "var": "u", "lo": aff([-1.0], [-1.5]), "hi": aff([1.0], [2.5])},
+             {"t": "circle", "var": "x", "c": C([0.5, -0.5]), "r": aff([0.4], [2.0])},
+             {"t": "sphere", "var": "y", "c": C([0.5, -1.0, 2.0]), "r": aff([1.0], [3.0])},
+             {"t": "par", "var": "x", "o": C([0.5, -1.0]), "c1": aff([1.5, -1.0], [2.0, 0.5]), "c2": aff([0.5, 0.0], [-0.5, 2.0])},
+             {"t": "tri", "var": "x", "o": C([0.0, 0.0]), "c1": aff([1.0, 0.0], [2.0, 0.5]), "c2": aff([0.0, 1.0], [-0.5, 2.0])}]
+    for j, A in enumerate(prims):
+        for r, rows in enumerate(([[0.0], [1.0], [0.35]], [[1.0], [0.0]])):
+            for E in (A, {"t": "boundary", "a": A}):
+                out.append({"dom": {"E": E, "kind": "interior" if E is A else "boundary", "pvars": ["p"], "lattice": False, "far": False},
+                            "prows": {"p": rows}, "rng": seed * 10 + 40 + 2 * j + r})
     return out
